@@ -1247,9 +1247,9 @@ package leader
 //@   ghost r0 Int = 0
 //@   ghost optRev Int = -1
 //@   on call nats.LastRevision as l set optRev = l.arg0
-//@   on call nats.KeyValue.Delete as c assert C14.conditional_delete_passthrough: c.recv == a.kv && c.key == key && !isnil(c.opts) && optRev == rev
+//@   on call nats.KeyValue.Delete as c assert C14+C01+C07.conditional_delete_passthrough: c.recv == a.kv && c.key == key && !isnil(c.opts) && optRev == rev
 //@   on ret nats.KeyValue.Delete as c set r0 = c.result
-//@   ensures C14.conditional_delete_passthrough: calls(nats.KeyValue.Delete) == 1 && calls(nats.LastRevision) == 1 && calls(nats.KeyValue.Purge) == 0
+//@   ensures C14+C01+C07.conditional_delete_passthrough: calls(nats.KeyValue.Delete) == 1 && calls(nats.LastRevision) == 1 && calls(nats.KeyValue.Purge) == 0
 //@   ensures C14.delete_result_unchanged: result == r0
 
 //@ func (a *natsKeyValueAdapter) Watch(key, opts)
